@@ -29,10 +29,12 @@ def joinToks : List Tok → Str
 
 /-! ## `fetch_next_str` on quote-free text -/
 
-theorem fetchLoop_cons (qr : Bool) (c : Char) (cs : Str) (q : Char) (sp : Bool) (acc : Str) :
+theorem fetchLoop_cons (qr : QMode) (c : Char) (cs : Str) (q : Char) (sp : Bool) (acc : Str) :
     fetchLoop qr (c :: cs) q sp acc =
       if c == '\'' || c == '"' then
-        fetchLoop qr cs (if qr then (if q == '\x00' then c else if q == c then '\x00' else q) else c) sp (c :: acc)
+        fetchLoop qr cs (if qr.reset then (if q == '\x00' then c else if q == c && (!qr.same || (match cs with
+          | n :: _ => n == ' ' || n == ')'
+          | [] => true)) then '\x00' else q) else c) sp (c :: acc)
       else if c == ' ' || (c == ')' && q != '\x00') then
         match cs with
         | n :: cs' => if n == q then fetchLoop qr cs' '\x00' sp (n :: c :: acc) else (acc, cs, q, sp)
@@ -42,7 +44,7 @@ theorem fetchLoop_cons (qr : Bool) (c : Char) (cs : Str) (q : Char) (sp : Bool) 
   cases cs <;> simp [fetchLoop]
 
 /-- Reading a word: characters that are neither delimiters nor quotes are accumulated. -/
-theorem fetchLoop_word (qr : Bool) (w rest : Str) (sp : Bool) (acc : Str) (hw : ∀ c ∈ w, nameCh c = true ∨ c = '(' ∨ c = ':') :
+theorem fetchLoop_word (qr : QMode) (w rest : Str) (sp : Bool) (acc : Str) (hw : ∀ c ∈ w, nameCh c = true ∨ c = '(' ∨ c = ':') :
     fetchLoop qr (w ++ rest) '\x00' sp acc = fetchLoop qr rest '\x00' sp (w.reverse ++ acc) := by
   induction w generalizing acc with
   | nil => rfl
@@ -70,12 +72,12 @@ theorem fetchLoop_word (qr : Bool) (w rest : Str) (sp : Bool) (acc : Str) (hw : 
     simp
 
 /-- A closing parenthesis ends the word, is consumed, and is remembered. -/
-theorem fetchLoop_paren (qr : Bool) (rest : Str) (sp : Bool) (acc : Str) :
+theorem fetchLoop_paren (qr : QMode) (rest : Str) (sp : Bool) (acc : Str) :
     fetchLoop qr (')' :: rest) '\x00' sp acc = (acc, rest, '\x00', true) := by
   rw [fetchLoop_cons]; simp
 
 /-- A space ends the word and is consumed (the next character is not NUL). -/
-theorem fetchLoop_space (qr : Bool) (rest : Str) (sp : Bool) (acc : Str) (h : rest.head? ≠ some '\x00') :
+theorem fetchLoop_space (qr : QMode) (rest : Str) (sp : Bool) (acc : Str) (h : rest.head? ≠ some '\x00') :
     fetchLoop qr (' ' :: rest) '\x00' sp acc = (acc, rest, '\x00', sp) := by
   rw [fetchLoop_cons]
   cases rest with
@@ -84,44 +86,44 @@ theorem fetchLoop_space (qr : Bool) (rest : Str) (sp : Bool) (acc : Str) (h : re
     have : (n == '\x00') = false := by simpa using fun h' => h (by simp [h'])
     simp [this]
 
-theorem fetchLoop_nil (qr : Bool) (q : Char) (sp : Bool) (acc : Str) : fetchLoop qr [] q sp acc = (acc, [], q, sp) := rfl
+theorem fetchLoop_nil (qr : QMode) (q : Char) (sp : Bool) (acc : Str) : fetchLoop qr [] q sp acc = (acc, [], q, sp) := rfl
 
 /-- A word of name characters, possibly starting with `(` and/or ending with `:`. -/
 def WordOK (w : Str) : Prop := w ≠ [] ∧ ∀ c ∈ w, nameCh c = true ∨ c = '(' ∨ c = ':'
 
 def fst0 (rest : Str) (sp dl : Bool) : FState := { rest := rest, quote := '\x00', sawParen := sp, didLast := dl }
 
-theorem fetch_word_space (qr : Bool) (w more : Str) (sp dl : Bool) (hw : WordOK w) (hm : more.head? ≠ some '\x00') :
+theorem fetch_word_space (qr : QMode) (w more : Str) (sp dl : Bool) (hw : WordOK w) (hm : more.head? ≠ some '\x00') :
     fetch qr (fst0 (w ++ ' ' :: more) sp dl) = some (w, fst0 more sp dl) := by
   obtain ⟨hne, hch⟩ := hw
   simp [fetch, fst0, fetchLoop_word qr w _ sp [] hch, fetchLoop_space qr more sp _ hm, hne]
 
-theorem fetch_word_paren (qr : Bool) (w more : Str) (sp dl : Bool) (hw : WordOK w) :
+theorem fetch_word_paren (qr : QMode) (w more : Str) (sp dl : Bool) (hw : WordOK w) :
     fetch qr (fst0 (w ++ ')' :: more) sp dl) = some (w, fst0 more true dl) := by
   obtain ⟨hne, hch⟩ := hw
   simp [fetch, fst0, fetchLoop_word qr w _ sp [] hch, fetchLoop_paren, hne]
 
-theorem fetch_paren (qr : Bool) (more : Str) (sp dl : Bool) (hm : more ≠ []) :
+theorem fetch_paren (qr : QMode) (more : Str) (sp dl : Bool) (hm : more ≠ []) :
     fetch qr (fst0 (')' :: more) sp dl) = some ([], fst0 more true dl) := by
   have : more.isEmpty = false := by cases more <;> simp_all
   simp [fetch, fst0, fetchLoop_paren, this]
 
-theorem fetch_space (qr : Bool) (more : Str) (sp dl : Bool) (hm : more ≠ []) (hm0 : more.head? ≠ some '\x00') :
+theorem fetch_space (qr : QMode) (more : Str) (sp dl : Bool) (hm : more ≠ []) (hm0 : more.head? ≠ some '\x00') :
     fetch qr (fst0 (' ' :: more) sp dl) = some ([], fst0 more sp dl) := by
   have : more.isEmpty = false := by cases more <;> simp_all
   simp [fetch, fst0, fetchLoop_space qr more sp _ hm0, this]
 
-theorem fetch_last_paren (qr : Bool) (sp dl : Bool) :
+theorem fetch_last_paren (qr : QMode) (sp dl : Bool) :
     fetch qr (fst0 [')'] sp dl) = some ([], fst0 [] false dl) := by
   simp [fetch, fst0, fetchLoop_paren]
 
-theorem fetch_end_sp (qr : Bool) (dl : Bool) : fetch qr (fst0 [] true dl) = some ([], fst0 [] false dl) := by
+theorem fetch_end_sp (qr : QMode) (dl : Bool) : fetch qr (fst0 [] true dl) = some ([], fst0 [] false dl) := by
   simp [fetch, fst0, fetchLoop]
 
-theorem fetch_end_last (qr : Bool) : fetch qr (fst0 [] false false) = some ([], fst0 [] false true) := by
+theorem fetch_end_last (qr : QMode) : fetch qr (fst0 [] false false) = some ([], fst0 [] false true) := by
   simp [fetch, fst0, fetchLoop]
 
-theorem fetch_end_none (qr : Bool) : fetch qr (fst0 [] false true) = none := by
+theorem fetch_end_none (qr : QMode) : fetch qr (fst0 [] false true) = none := by
   simp [fetch, fst0, fetchLoop]
 
 /-! ## the main loop -/
@@ -132,13 +134,13 @@ theorem rep_shift (a : Char) (j : Nat) (l : Str) : List.replicate j a ++ a :: l 
   | succ j ih => simp [List.replicate_succ, ih]
 
 /-- An empty token closes one level. -/
-theorem fmtLoop_close (qr : Bool) (f : Nat) (st st' : FState) (ind : Nat) (hf : Bool) (out : Str)
+theorem fmtLoop_close (qr : QMode) (f : Nat) (st st' : FState) (ind : Nat) (hf : Bool) (out : Str)
     (h : fetch qr st = some ([], st')) (hi : 0 < ind) :
     fmtLoop qr (f + 1) st ind hf out = fmtLoop qr f st' (ind - 1) hf (')' :: out) := by
   simp [fmtLoop, h, hi]
 
 /-- At the end of the input with nothing left to close the loop returns, whatever fuel is left. -/
-theorem fmtLoop_done (qr : Bool) (f : Nat) (dl : Bool) (hf : Bool) (out : Str) :
+theorem fmtLoop_done (qr : QMode) (f : Nat) (dl : Bool) (hf : Bool) (out : Str) :
     fmtLoop qr f (fst0 [] false dl) 0 hf out = out := by
   cases f with
   | zero => rfl
@@ -153,7 +155,7 @@ theorem fmtLoop_done (qr : Bool) (f : Nat) (dl : Bool) (hf : Bool) (out : Str) :
 
 /-- `j` closing parentheses followed by a space and more text: `j + 1` levels are closed
 (the first `)` of the run was consumed with the name). -/
-theorem fmtLoop_closers (qr : Bool) (f : Nat) (more : Str) (dl hf : Bool) (hm : more ≠ []) (hm0 : more.head? ≠ some '\x00') :
+theorem fmtLoop_closers (qr : QMode) (f : Nat) (more : Str) (dl hf : Bool) (hm : more ≠ []) (hm0 : more.head? ≠ some '\x00') :
     ∀ (j : Nat) (sp : Bool) (ind : Nat) (out : Str), j + 1 ≤ ind →
       fmtLoop qr (f + (j + 1)) (fst0 (List.replicate j ')' ++ ' ' :: more) sp dl) ind hf out =
         fmtLoop qr f (fst0 more (sp || decide (0 < j)) dl) (ind - (j + 1)) hf (List.replicate (j + 1) ')' ++ out)
@@ -174,7 +176,7 @@ theorem fmtLoop_closers (qr : Bool) (f : Nat) (more : Str) (dl hf : Bool) (hm : 
 
 /-- The closing parentheses that end the input: `j` of them are still unread (one was consumed with the
 name), `j + 1` levels are open; all are closed and the loop returns — with any amount of spare fuel. -/
-theorem fmtLoop_closers_end (qr : Bool) (g : Nat) (hf : Bool) :
+theorem fmtLoop_closers_end (qr : QMode) (g : Nat) (hf : Bool) :
     ∀ (j : Nat) (out : Str),
       fmtLoop qr (g + (j + 1)) (fst0 (List.replicate j ')') true false) (j + 1) hf out =
         List.replicate (j + 1) ')' ++ out
@@ -215,7 +217,7 @@ theorem wordOK_field (n : Str) (h : NameOK2 n) : WordOK (n ++ [':']) :=
 instance (n : Str) : Decidable (NameOK2 n) := by unfold NameOK2; infer_instance
 
 /-- One iteration on a `(name` word. -/
-theorem fmtLoop_open_word (qr : Bool) (f : Nat) (st st' : FState) (n : Str) (ind : Nat) (hf : Bool) (out : Str)
+theorem fmtLoop_open_word (qr : QMode) (f : Nat) (st st' : FState) (n : Str) (ind : Nat) (hf : Bool) (out : Str)
     (hn : NameOK2 n) (h : fetch qr st = some ('(' :: n, st')) :
     fmtLoop qr (f + 1) st ind hf out =
       fmtLoop qr f st' (openInd ind hf) false (n.reverse ++ '(' :: ((openPre ind hf).reverse ++ out)) := by
@@ -231,7 +233,7 @@ theorem fmtLoop_open_word (qr : Bool) (f : Nat) (st st' : FState) (n : Str) (ind
       simp [fmtLoop, h, hm1, hm2, openInd, openPre]
 
 /-- One iteration on a `field:` word. -/
-theorem fmtLoop_field_word (qr : Bool) (f : Nat) (st st' : FState) (n : Str) (ind : Nat) (hf : Bool) (out : Str)
+theorem fmtLoop_field_word (qr : QMode) (f : Nat) (st st' : FState) (n : Str) (ind : Nat) (hf : Bool) (out : Str)
     (hn : NameOK2 n) (h : fetch qr st = some (n ++ [':'], st')) :
     fmtLoop qr (f + 1) st ind hf out =
       fmtLoop qr f st' (ind + 1) true (' ' :: ':' :: (n.reverse ++ ((indentStr ind).reverse ++ '\n' :: out))) := by
@@ -331,7 +333,7 @@ theorem joinToks_head (t : Tok) (ts : List Tok) (ind : Nat) (hf : Bool) (h : Bal
 theorem rev_rep (a : Char) (k : Nat) : (List.replicate k a).reverse = List.replicate k a := by simp
 
 /-- `format_tokens`, loop form: on a balanced token sequence the loop appends exactly `prettyToks`. -/
-theorem fmt_toks (qr : Bool) :
+theorem fmt_toks (qr : QMode) :
     ∀ (toks : List Tok) (ind : Nat) (hf : Bool) (out : Str) (sp : Bool) (g : Nat), Bal toks ind hf →
       fmtLoop qr (g + need toks) (fst0 (joinToks toks) sp false) ind hf out = (prettyToks toks ind hf).reverse ++ out
   | [], _, _, _, _, _, h => by simp [Bal] at h
@@ -398,7 +400,7 @@ theorem format_tokens (fx : Fixes) (toks : List Tok) (h : Bal toks 0 false) :
   unfold formatSexp
   have hle := need_le_length toks
   obtain ⟨g, hg⟩ : ∃ g, (joinToks toks).length + 3 = g + need toks := ⟨(joinToks toks).length + 3 - need toks, by omega⟩
-  have := fmt_toks fx.quoteReset toks 0 false [] false g h
+  have := fmt_toks ⟨fx.quoteReset, fx.sameQuote⟩ toks 0 false [] false g h
   simp only [fst0] at this
   rw [hg, this]
   simp
